@@ -97,7 +97,8 @@ func (r *ingressController) EnsureRoutes(ctx context.Context, strategy *v1beta1.
 	err := r.Get(ctx, types.NamespacedName{Namespace: r.conf.Namespace, Name: defaultCanaryIngressName(r.conf.TrafficConf.Name)}, canaryIngress)
 	if errors.IsNotFound(err) {
 		// finalizer scenario, canary ingress maybe not found
-		if weight != nil && *weight == 0 {
+		// (only when the step asks for nothing else: a zero-weight step with matches still needs the canary ingress)
+		if weight != nil && *weight == 0 && len(matches) == 0 && headerModifier == nil {
 			return true, nil
 		}
 		// create canary ingress
